@@ -3,6 +3,7 @@ mod exittrap;
 mod gen;
 mod minimize;
 mod props;
+mod refstyle;
 mod rows;
 mod runner;
 mod tape;
